@@ -57,7 +57,8 @@ pub fn replay_one(case: &Value) -> (Outcome, String) {
     let recv = case["recv"].as_str().unwrap();
     let via = case["via"].as_str().unwrap();
     let kinds: Vec<&str> = case["params"].as_array().map(|a| a.iter().map(|c| c.as_str().unwrap()).collect()).unwrap_or_default();
-    let wh = case["wh"] == true;
+    let wh_kind = case["wh"].as_str().unwrap_or("none");
+    let wh = wh_kind != "none";
     let other = case["other"] == true;
     // one parameter per line, so that a span names its parameter
     let mut src = String::from("\n");
@@ -77,7 +78,8 @@ pub fn replay_one(case: &Value) -> (Outcome, String) {
     }
     src.push_str(">");
     let first_type = kinds.iter().position(|k| k.starts_with('t')).map(|i| i + 1);
-    if wh { src.push_str(&match first_type { Some(i) => format!(" where T{}: Copy", i), None => " where u8: Copy".to_string() }); }
+    if wh_kind == "empty" { src.push_str(" where"); }      // a where clause without predicates is still the input's where clause
+    else if wh { src.push_str(&match first_type { Some(i) => format!(" where T{}: Copy", i), None => " where u8: Copy".to_string() }); }
     src.push_str(";");
     let tag = format!("{}/{} <- {}", recv, via, src.replace('\n', " ").trim());
     let di: syn::DeriveInput = match syn::parse_str(&src) { Ok(d) => d, Err(e) => { prop.push(format!("harness: `{}` does not parse: {}", src, e)); return (Outcome { prop, model }, tag) } };
